@@ -297,6 +297,7 @@ func (db *DB) Merge() error {
 		return errors.New("not support mode `HintBPTSparseIdxMode`")
 	}
 
+	verifAccess("isMerging", true, db)
 	db.isMerging = true
 
 	_, pendingMergeFIds = db.getMaxFileIDAndFileIDs()
@@ -307,6 +308,8 @@ func (db *DB) Merge() error {
 	}
 
 	for _, pendingMergeFId := range pendingMergeFIds {
+		verifGate("merge-scan", db)
+		verifAccess("indexes", false, db)
 		off = 0
 		f, err := NewDataFile(db.getDataPath(int64(pendingMergeFId)), db.opt.SegmentSize, db.opt.RWMode)
 		if err != nil {
@@ -366,6 +369,12 @@ func (db *DB) Merge() error {
 			return err
 		}
 
+		verifGate("merge-remove", db)
+		if h, _, err := verifFS("remove", db.getDataPath(int64(pendingMergeFId)), 0, nil); h {
+			db.isMerging = false
+			f.rwManager.Close()
+			return fmt.Errorf("when merge err: %s", err)
+		}
 		if err := os.Remove(db.getDataPath(int64(pendingMergeFId))); err != nil {
 			db.isMerging = false
 			f.rwManager.Close()
@@ -381,6 +390,7 @@ func (db *DB) Merge() error {
 // Backup copies the database to file directory at the given dir.
 func (db *DB) Backup(dir string) error {
 	err := db.View(func(tx *Tx) error {
+		verifGate("backup-copy", db)
 		return filesystem.CopyDir(db.opt.Dir, dir)
 	})
 	if err != nil {
@@ -394,6 +404,7 @@ func (db *DB) Backup(dir string) error {
 func (db *DB) Close() error {
 	db.mu.Lock()
 	defer db.mu.Unlock()
+	verifLock("close", db, true)
 
 	if db.closed {
 		return ErrDBClosed
@@ -567,6 +578,7 @@ func (db *DB) buildBPTreeRootIdxes(dataFileIds []int) error {
 	for i := 0; i < len(dataFileIds[0:dataFileIdsSize-1]); i++ {
 		off = 0
 		path := db.getBPTRootPath(int64(dataFileIds[i]))
+		verifFS("open", path, 0, nil)
 		fd, err := os.OpenFile(path, os.O_CREATE|os.O_RDWR, 0644)
 		if err != nil {
 			return err
@@ -982,6 +994,7 @@ func (db *DB) reWriteData(pendingMergeEntries []*Entry) error {
 	if len(pendingMergeEntries) == 0 {
 		return nil
 	}
+	verifGate("merge-rewrite", db)
 	tx, err := db.Begin(true)
 	if err != nil {
 		db.isMerging = false
